@@ -248,6 +248,15 @@ func (s *grpcServer) UpdateActionResult(ctx context.Context,
 		return nil, err
 	}
 
+	// Inlined blobs are stored in the CAS below, after the ActionResult
+	// itself. Check them first, so that a request which is going to be
+	// rejected does not leave its ActionResult behind.
+	err = checkInlinedBlobs(req.ActionResult)
+	if err != nil {
+		s.accessLogger.Printf("%s %s %s", logPrefix, req.ActionDigest.Hash, err)
+		return nil, status.Error(codes.InvalidArgument, err.Error())
+	}
+
 	// Ensure that the serialized ActionResult has non-zero length.
 	addWorkerMetadataGRPC(ctx, req.ActionResult)
 
@@ -348,6 +357,34 @@ func (s *grpcServer) UpdateActionResult(ctx context.Context,
 	// request, in order to follow this standard method style guide:
 	// https://cloud.google.com/apis/design/standard_methods
 	return req.ActionResult, nil
+}
+
+// Return an error if a blob inlined in ar does not match the digest
+// specified next to it.
+func checkInlinedBlobs(ar *pb.ActionResult) error {
+	check := func(what string, data []byte, d *pb.Digest) error {
+		if len(data) == 0 || d == nil {
+			return nil
+		}
+		sum := sha256.Sum256(data)
+		if d.SizeBytes != int64(len(data)) || d.Hash != hex.EncodeToString(sum[:]) {
+			return fmt.Errorf("inlined %s does not match its digest %s/%d", what, d.Hash, d.SizeBytes)
+		}
+		return nil
+	}
+
+	for _, f := range ar.OutputFiles {
+		if f == nil {
+			continue
+		}
+		if err := check("output file "+f.Path, f.Contents, f.Digest); err != nil {
+			return err
+		}
+	}
+	if err := check("stdout", ar.StdoutRaw, ar.StdoutDigest); err != nil {
+		return err
+	}
+	return check("stderr", ar.StderrRaw, ar.StderrDigest)
 }
 
 func addWorkerMetadataGRPC(ctx context.Context, ar *pb.ActionResult) {
